@@ -121,13 +121,22 @@ class Check(PropertyCheck):
         base = [0]
         for job in jobs:
             base.append(base[-1] + len(job))
+        order = []
         while not tr.done():
             ready = [base[j] + p for j, p in tr.ready()]
             lines.append("flt dom ; " + " ".join(map(str, ready)))
             lines.append("q available")
             j, p, m = gen.gen_valid_request(rng, tr)
             tr.take(j)
+            order.append((j, p))
             lines.append(f"disp {j} {p} {m}")
+        if gen.is_flexible(jobs) and rng.random() < 0.6:
+            # the same dispatcher again: the same operations in the same order, on OTHER eligible machines where there are any
+            lines.append("reset")
+            for j, p in order:
+                lines.append("q available")
+                lines.append(f"disp {j} {p} {rng.choice(jobs[j][p][0])}")
+            lines.append("q available")
         meta = {"family": family, "flexible": gen.is_flexible(jobs), "search": search, "ops": gen.num_ops(jobs),
                 "filter_style": rng.choice(["callable", "enum", "str"])}
         return Scenario(lines, meta)
